@@ -246,6 +246,15 @@ func checkC19(c *Ctx) error {
 		lays = append(lays, layout{"read-only-copies", ld, "deep/er/cfg"})
 		// (e) absolute patterns from an unrelated working directory; (f) redundant path elements
 		lays = append(lays, layout{"absolute-from-elsewhere", w.TempDir("c19l"), src})
+		// path elements that start with a dot: the parent directory, a hidden directory holding copies
+		lays = append(lays, layout{"relative-through-parent", filepath.Join(w.Repo, "internal/cmd"), "../gontainer"})
+		lh := w.TempDir("c19l")
+		_ = os.MkdirAll(filepath.Join(lh, ".config/gontainer.d"), 0o755)
+		for _, n := range names {
+			b, _ := os.ReadFile(n)
+			_ = os.WriteFile(filepath.Join(lh, ".config/gontainer.d", filepath.Base(n)), b, 0o644)
+		}
+		lays = append(lays, layout{"copies-in-hidden-directory", lh, ".config/gontainer.d"})
 		lays = append(lays, layout{"redundant-path-elements", w.Repo, "./internal//gontainer/../gontainer/."})
 		for _, l := range lays {
 			out := filepath.Join(w.TempDir("c19o"), "gontainer.go")
